@@ -3242,3 +3242,48 @@ pub(crate) fn verif_quant_factors(
     }
     Ok(out)
 }
+
+/// `Vp8Decoder::loop_filter` over all macroblocks of a key frame, in the decoder's order, on
+/// caller-supplied macroblock-aligned planes: display size `w` x `h`, filter type, sharpness and
+/// frame level as in the frame header (no segments, no deltas), per macroblock (B_PRED?, any
+/// non-zero coefficient?). Returns the three aligned planes after filtering.
+#[cfg(image_webp_verif)]
+#[allow(clippy::too_many_arguments)]
+pub(crate) fn verif_loop_filter(
+    w: u16,
+    h: u16,
+    simple: bool,
+    sharpness: u8,
+    level: u8,
+    ybuf: &[u8],
+    ubuf: &[u8],
+    vbuf: &[u8],
+    mbs: &[(bool, bool)],
+) -> (Vec<u8>, Vec<u8>, Vec<u8>) {
+    let mut d = Vp8Decoder::new(std::io::empty());
+    d.frame.keyframe = true;
+    d.frame.filter_type = simple;
+    d.frame.filter_level = level;
+    d.frame.sharpness_level = sharpness;
+    d.mbwidth = w.div_ceil(16);
+    d.mbheight = h.div_ceil(16);
+    d.display_width = w;
+    d.display_height = h;
+    d.frame.width = d.mbwidth * 16;
+    d.frame.height = d.mbheight * 16;
+    d.frame.ybuf = ybuf.to_vec();
+    d.frame.ubuf = ubuf.to_vec();
+    d.frame.vbuf = vbuf.to_vec();
+    for mby in 0..d.mbheight as usize {
+        for mbx in 0..d.mbwidth as usize {
+            let (bpred, non_zero) = mbs[mby * d.mbwidth as usize + mbx];
+            let mb = MacroBlock {
+                luma_mode: if bpred { LumaMode::B } else { LumaMode::DC },
+                non_zero_coeffs: non_zero,
+                ..Default::default()
+            };
+            d.loop_filter(mbx, mby, &mb);
+        }
+    }
+    (d.frame.ybuf, d.frame.ubuf, d.frame.vbuf)
+}
